@@ -264,6 +264,7 @@ def mutated(mi: int, bi: int, site: int, mut: int, rsel: int, tag: str,
         return None
     if mut == MUT_NONE:
         return b if site == 0 else None
+    site = pick(list(range(len(b.nodes))), site)    # concrete index per path
     node = b.nodes[site]
     lim = lim or FULL
     if mut == MUT_REPLACE:
@@ -389,3 +390,52 @@ PIPELINE_ASSUMPTIONS = [
     'text, if need be as a verbatim tag !<...>; replay checks that',
     'scalar values and keys come from palettes (PyYAML parses/hashes them)',
 ]
+
+
+# ---------------------------------------------------------------------------
+# helpers for the oracle-free pair properties (C13, C18)
+
+def clone(node, lc=None):
+    """A structurally equal tree made of fresh node objects (what writing an
+    alias out as a copy of the anchored node composes to)."""
+    if isinstance(node, yaml.ScalarNode):
+        return yaml.ScalarNode(node.tag, node.value, node.start_mark,
+                               node.end_mark, style=node.style)
+    if isinstance(node, yaml.SequenceNode):
+        return yaml.SequenceNode(node.tag, [clone(x) for x in node.value],
+                                 node.start_mark, node.end_mark,
+                                 flow_style=node.flow_style)
+    return yaml.MappingNode(node.tag, [(clone(k), clone(v))
+                                       for k, v in node.value],
+                            node.start_mark, node.end_mark,
+                            flow_style=node.flow_style)
+
+
+def is_descendant(node, root) -> bool:
+    """node occurs in the tree headed by root (root itself included)."""
+    if node is root:
+        return True
+    if isinstance(root, yaml.SequenceNode):
+        return any(is_descendant(node, x) for x in root.value)
+    if isinstance(root, yaml.MappingNode):
+        return any(is_descendant(node, k) or is_descendant(node, v)
+                   for k, v in root.value)
+    return False
+
+
+def outcome_sig(outcome, val):
+    """What the pair properties compare: failure, or the structural view of
+    the loaded value."""
+    from vlib.common import plain
+    if outcome == 'raise':
+        return ('fails',)
+    return ('value', plain(val))
+
+
+def run_load_with(loader, tree):
+    zoo.reset()
+    try:
+        v = load_tree(loader, tree)
+    except Exception as e:   # noqa
+        return 'raise', e
+    return 'ok', v
